@@ -10,9 +10,9 @@ CONSTANTS
   MaxChal = 8
   Defects = {}
   ImmModes = {TRUE, FALSE}
-  NakModes = {TRUE, FALSE}
+  NakModes = {TRUE}
   AdvKinds = {"flip", "trunc", "replay"}
-  Ops = {"auth", "protect", "lock", "ndef", "format"}
+  Ops = {"auth", "protect", "ndef"}
 INVARIANT Reached
 INVARIANT TypeOK
 INVARIANT ResultTyped
